@@ -193,6 +193,14 @@ type cbCall struct {
 }
 
 func linearizable(calls []cbCall, threshold uint64) bool {
+	return linearizableFrom(calls, threshold, 0, false)
+}
+
+// linearizableFrom: the model starts with count0 consecutive failures; stale tells that the last of them is
+// older than the recovery time (the breaker, if open, is due for recovery: the next decision that sees it open
+// sets the count to threshold/2 and forwards). A failure during the run is recent: an open breaker then
+// rejects (the recovery time never elapses again within the run).
+func linearizableFrom(calls []cbCall, threshold uint64, count0 uint64, stale0 bool) bool {
 	type stepT struct {
 		lo, hi int // the step happens after stamp lo and before stamp hi
 		call   int
@@ -217,15 +225,16 @@ func linearizable(calls []cbCall, threshold uint64) bool {
 		g     int
 		mask  uint32
 		count uint64
+		stale bool
 	}
 	dead := map[key]bool{}
 	full := uint32(1)<<uint(len(steps)) - 1
-	var rec func(g int, mask uint32, count uint64) bool
-	rec = func(g int, mask uint32, count uint64) bool {
+	var rec func(g int, mask uint32, count uint64, stale bool) bool
+	rec = func(g int, mask uint32, count uint64, stale bool) bool {
 		if mask == full {
 			return true
 		}
-		k := key{g, mask, count}
+		k := key{g, mask, count, stale}
 		if dead[k] {
 			return false
 		}
@@ -236,18 +245,22 @@ func linearizable(calls []cbCall, threshold uint64) bool {
 			}
 			c := calls[st.call]
 			if st.dec {
-				if (count <= threshold) == c.rejected {
+				forwards, n := count <= threshold, count
+				if !forwards && stale {
+					forwards, n = true, threshold>>1 // recovery
+				}
+				if forwards == c.rejected {
 					continue // the atomic breaker would have decided otherwise here
 				}
-				if rec(g, mask|1<<uint(i), count) {
+				if rec(g, mask|1<<uint(i), n, stale) {
 					return true
 				}
 			} else {
-				n := count + 1
+				n, st2 := count+1, false // a failure now is recent
 				if c.out == 0 {
-					n = 0
+					n, st2 = 0, stale
 				}
-				if rec(g, mask|1<<uint(i), n) {
+				if rec(g, mask|1<<uint(i), n, st2) {
 					return true
 				}
 			}
@@ -260,18 +273,22 @@ func linearizable(calls []cbCall, threshold uint64) bool {
 					ok = false
 				}
 			}
-			if ok && rec(g+1, mask, count) {
+			if ok && rec(g+1, mask, count, stale) {
 				return true
 			}
 		}
 		dead[k] = true
 		return false
 	}
-	return rec(0, 0, 0)
+	return rec(0, 0, count0, stale0)
 }
 
-func concurrent(n int, threshold uint64) h.Scenario {
+func concurrent(n int, threshold uint64, recovery ...bool) h.Scenario {
+	due := len(recovery) > 0 && recovery[0] // the breaker is open and due for recovery when the callers start
 	name := fmt.Sprintf("breaker/callers=%d/threshold=%d", n, threshold)
+	if due {
+		name += "/open-and-due-for-recovery"
+	}
 	return h.Scenario{Name: name, Quick: 2, Thorough: 3, Run: func(ch vs.Chooser, trace bool) (*vs.Sched, h.Outcome) {
 		calls := make([]cbCall, n*2)
 		var failuresBegun vs.Var[int] // shared harness variables: tracked so that the state cache sees accesses
@@ -284,6 +301,12 @@ func concurrent(n int, threshold uint64) h.Scenario {
 		failuresBegunBefore := make([]int, n*2)
 		s := vs.Run(ch, vs.Config{Trace: trace}, func() {
 			cb := circuitbreaker.New(circuitbreaker.WithThreshold(threshold), circuitbreaker.WithRecoverTime(time.Hour))
+			if due {
+				for k := uint64(0); k <= threshold; k++ {
+					cb.IOHandler(context.Background(), []byte("r"), func(ctx context.Context, request []byte) ([]byte, error) { return nil, errDown })
+				}
+				vs.Sleep(2 * time.Hour)
+			}
 			for t := 0; t < n; t++ {
 				t := t
 				vs.GoFG(fmt.Sprintf("caller%d", t), func() {
@@ -329,7 +352,7 @@ func concurrent(n int, threshold uint64) h.Scenario {
 				if c.err != circuitbreaker.ErrBreaker {
 					o.Viol = append(o.Viol, h.V{Sig: "breaker|concurrent|wrong-reject-error", What: fmt.Sprintf("%s: call %d rejected with %v", name, i, c.err)})
 				}
-				if uint64(failuresBegunBefore[i]) <= threshold {
+				if !due && uint64(failuresBegunBefore[i]) <= threshold {
 					o.Viol = append(o.Viol, h.V{Sig: "breaker|concurrent|rejects-while-closed", What: fmt.Sprintf("%s: call %d rejected although only %d downstream failures had begun (threshold %d)", name, i, failuresBegunBefore[i], threshold)})
 				}
 			} else {
@@ -344,7 +367,11 @@ func concurrent(n int, threshold uint64) h.Scenario {
 				}
 			}
 		}
-		if !s.Pruned && s.Aborted == "" && len(o.Viol) == 0 && !linearizable(calls, threshold) {
+		count0 := uint64(0)
+		if due {
+			count0 = threshold + 1
+		}
+		if !s.Pruned && s.Aborted == "" && len(o.Viol) == 0 && !linearizableFrom(calls, threshold, count0, due) {
 			var hist []string
 			for i, c := range calls {
 				if c.done {
@@ -359,6 +386,6 @@ func concurrent(n int, threshold uint64) h.Scenario {
 }
 
 func main() {
-	scen := []h.Scenario{concurrent(2, 0), concurrent(2, 1), concurrent(3, 0), concurrent(3, 1)}
+	scen := []h.Scenario{concurrent(2, 0), concurrent(2, 1), concurrent(3, 0), concurrent(3, 1), concurrent(2, 2, true), concurrent(2, 1, true), concurrent(2, 0, true), concurrent(3, 0, true)}
 	h.Main(ID, scen, nil, h.SeqPart{Name: "histories", Shards: 64, Run: histories})
 }
